@@ -104,8 +104,9 @@ class _Arith(ast.NodeTransformer):
 
 
 class PathSum:
-    def __init__(self, prog, cls, fn, env, enums=None, max_paths=64, assume_validated=True, inline_self=False):
+    def __init__(self, prog, cls, fn, env, enums=None, max_paths=64, assume_validated=True, inline_self=False, opaque_loops=False):
         self.prog, self.cls, self.fn, self.env, self.enums = prog, cls, fn, env, enums
+        self.opaque_loops = opaque_loops    # a loop is not walked: whatever it assigns becomes an unknown named after the loop (enough to compare paths with each other)
         self.inline_self = inline_self      # statement calls `self.m(..)` of loop-free methods of the same class are walked in place
         self._depth = 0
         self.max_paths = max_paths
@@ -230,6 +231,14 @@ class PathSum:
             new = [c for c in ast.walk(v) if isinstance(c, ast.Call) and self._effectful(c)]
             return nxt(locs, fields, calls + new, conds)
         if isinstance(st, ast.Assert):
+            return nxt(locs, fields, calls, conds)
+        if isinstance(st, (ast.For, ast.While)) and self.opaque_loops and not any(isinstance(x, (ast.Return, ast.Raise)) for x in ast.walk(st)):
+            locs, fields = dict(locs), dict(fields)
+            for x in ast.walk(st):
+                if isinstance(x, ast.Name) and isinstance(x.ctx, ast.Store):
+                    locs[x.id] = ast.Name(id=f'__loop{st.lineno}_{x.id}', ctx=ast.Load())
+                elif isinstance(x, ast.Attribute) and isinstance(x.ctx, ast.Store) and isinstance(x.value, ast.Name) and x.value.id == 'self':
+                    fields[x.attr] = ast.Name(id=f'__loop{st.lineno}_self_{x.attr}', ctx=ast.Load())
             return nxt(locs, fields, calls, conds)
         raise Unsupported(f'{type(st).__name__} statement at line {getattr(st, "lineno", "?")}')
 
